@@ -118,7 +118,7 @@ def run_e2(res, cfg, src_names, instances, builder, wrappers=(), defs=(), replay
         for fn, f in m.funcs.items():
             allfuncs[fn] = set(f.order)
     covered = {}
-    agg = dict(paths=0, queries=0, solver_s=0.0, instrs=0, nchecks=0, nontrivial=0, validated=0, validated_calls=0)
+    agg = dict(paths=0, queries=0, solver_s=0.0, instrs=0, nchecks=0, nontrivial=0, validated=0, validated_calls=0, max_query_s=0.0, retries=0)
     for o in outs:
         if o.get("error"):
             res.error("%s instance %s: %s" % (group, o["name"], o["error"]))
@@ -128,6 +128,8 @@ def run_e2(res, cfg, src_names, instances, builder, wrappers=(), defs=(), replay
         agg["queries"] += st["queries"]
         agg["solver_s"] += st["solver_s"]
         agg["instrs"] += st["instrs"]
+        agg["max_query_s"] = max(agg["max_query_s"], st.get("max_query_s", 0))
+        agg["retries"] += st.get("retries", 0)
         agg["nchecks"] += o["nchecks"]
         agg["nontrivial"] += o["nontrivial"]
         for fn, lab in o["covered"]:
